@@ -10,6 +10,7 @@ top-left corner is, is *read off the canvas* and compared with the three other v
 from __future__ import annotations
 
 import json
+import time
 import warnings
 
 import urwid
@@ -55,6 +56,17 @@ REQUIRE = {
     "c4_press_cursor_evals": 150,
     # accepted moves onto real Edit leaves: cursor row judged (captions that wrap included)
     "c3_edit_accepted_row_checked": 60,
+    # round 4: probing before any render has filled the cache; unusual options; masked / multiline Edits
+    "cold_cases_judged": 60,
+    "c1_cursor_evals_before_render": 300,
+    "c2_mouse_cells_before_render": 1000,
+    "c3_move_evals_before_render": 150,
+    "c4_edit_press_row_evals": 40,
+    "judged_with:Pile-weight0": 8,
+    "judged_with:Edit-masked-comb": 8,
+    "judged_with:Edit-masked-wide": 4,
+    "judged_with:Edit-multiline": 8,
+    "judged_with:Edit-long-caption": 8,
     # every container/decoration of the statement was part of judged cases
     **{f"judged_with:{k}": 8 for k in ("Pile", "Columns", "Frame", "Filler", "Padding", "Overlay", "BoxAdapter", "LineBox", "AttrMap", "GridFlow", "ListBox", "Edit")},
     # mechanism functions reached
@@ -120,9 +132,11 @@ ASSUMES = [
     "real leaves: only their glyph cells are judged; top-left = first glyph cell minus the documented label offset (Button '< ' 2, CheckBox '[ ] ' 4); "
     "Button/CheckBox narrower than 5 columns count as clipped",
     "a non-selectable spy never shows or reports a cursor (urwid containers do not report cursors of non-selectable children)",
-    "C01's contract is part of the domain: a tree in which some flow container's rows() (computed, not read from the canvas cache) differs "
-    "from the rows of the canvas it rendered is skipped (skipped_precondition:rows_method_disagrees_with_rendered_rows): with the canvas "
-    "cache enabled its parent sees one height while rendering and another afterwards (e.g. Pile of fixed-only children as a 'pack' column)",
+    "round 4: ~28% of the cases are probed 'before render': the canvas cache is emptied before every get_cursor_coords / mouse_event / "
+    "move_cursor_to_coords call and no canvas is kept, so containers must compute their children's geometry themselves (rows()/pack() "
+    "not answered from cached canvases); a disagreement that shows only then carries '|before-render'. A container whose computed rows() "
+    "differs from the rows it renders is no longer a domain filter (it was in round 2, for a since-fixed Pile defect): it is judged, and "
+    "only counted as cases_with_rows_method_disagreeing_with_rendered_rows",
     "after a button-1 press (fresh tree), after each accepted move_cursor_to_coords and after each navigation key, clause 1 is evaluated "
     "WITHOUT a harness re-render: the canvases of the previous render are alive and the cache is enabled, so render(size, True) is what a "
     "screen redraw would show (kind suffix :after-press / :after-move / :after-key); what a key does is C08's business and exceptions from "
@@ -156,6 +170,7 @@ class Obs:
         self.cellmap = {}  # (c, r) -> leaf node
         self.sizes = {}  # id(widget) -> size it was rendered at (last)
         self.dims = {}  # id(widget) -> (cols, rows) of the canvas it produced
+        self.rows_disagree = False
         self.after_history = False  # probing follows a history of touches at other sizes (cache enabled)
         self.keep = None
         self.canvas = None  # the root canvas for this size ("what is on screen"); keeping it keeps the cache entries alive
@@ -261,10 +276,13 @@ def observe(root, size, log, focus=True) -> Obs:
         return o
     o.sizes = seen
     o.dims = dims
-    why = containers_clipped(root, dims) or rows_disagree(root, seen, dims, focus)
+    why = containers_clipped(root, dims)
     if why:
         o.reason = why
         return o
+    # not a domain filter any more (round 4): a container whose computed rows() differs from what it renders gives its parent
+    # one geometry before a render and another after it, which is exactly a disagreement of the views -- judged, only noted here
+    o.rows_disagree = bool(rows_disagree(root, seen, dims, focus))
     try:
         grid = read_grid(canv)
     except UnicodeDecodeError:
@@ -515,7 +533,10 @@ def apply_history(ctx, root, o, size, focus, hist, log):
 # ----------------------------------------------------------------------------- one case
 class Case:
     def __init__(self, ctx, recipe, size, collect, focus=True, hist=None):
-        self.hist = hist
+        # hist = None | {"touch": [...], ...} (size history) | {"cold": True} (every probe is made with the canvas cache emptied
+        # first and no canvas kept: get_cursor_coords / events BEFORE any render has populated the cache of the inner containers)
+        self.cold = bool(hist and hist.get("cold"))
+        self.hist = None if self.cold else hist
         self.focus = bool(focus)
         self.key = json.dumps(strip(recipe), sort_keys=True)  # sampling must not depend on generator-only steering keys
         self.ctx = ctx
@@ -540,6 +561,10 @@ class Case:
                 o = observe(root, self.size, self.log, self.focus)
         return o
 
+    def chill(self):
+        if self.cold:
+            urwid.CanvasCache.clear()
+
     def fresh(self):
         self.log = []
         with warnings.catch_warnings():
@@ -561,6 +586,8 @@ class Case:
         """when = None: right after the observing render; 'after-press' / 'after-move' / 'after-key': the tree has just been
         acted upon and has NOT been re-rendered by the harness -- the canvases of the previous render are alive and the cache is
         enabled, so render(size, True) is answered from the cache unless the action invalidated it (as a screen redraw would)"""
+        if when is None and not self.wants("c1"):
+            return
         tag = "c1"
         sfx = f":{when}" if when else ""
         ctx = self.ctx
@@ -588,6 +615,7 @@ class Case:
             op = {"op": "cursor", "node": n.kind, "size": list(sz), "on_focus_chain": id(n) in onchain, "after_moves": after or []}
             if extra:
                 op.update(extra)
+            self.chill()
             try:
                 rep = w.get_cursor_coords(sz)
             except Exception as e:  # noqa: BLE001
@@ -602,6 +630,8 @@ class Case:
                 ctx.count("c1_rerender_error")
                 continue
             ctx.count("c1_cursor_evals")
+            if self.cold:
+                ctx.count("c1_cursor_evals_before_render")
             if when:
                 ctx.count("c1_cursor_evals_" + when.replace("-", "_"))
             if o.after_history:
@@ -678,8 +708,10 @@ class Case:
             self.ctx.count("c2_leaf_got_size_other_than_rendered")
 
     def clause2(self, o):
+        if not self.wants("c2"):
+            return o
         ctx = self.ctx
-        cells = self.pick_cells(o, 2000 if getattr(ctx, "shrinking", False) else CELL_CAP[ctx.tier])
+        cells = self.pick_cells(o, 700 if getattr(ctx, "shrinking", False) else CELL_CAP[ctx.tier])
         root = self.root
         nev = ctx.pick(1, 2)
         for i, cell in enumerate(cells):
@@ -687,12 +719,15 @@ class Case:
                 ev, btn = EVENTS[(i + k * 2 + cell[0]) % len(EVENTS)]
                 del self.log[:]
                 op = {"op": "mouse", "event": ev, "button": btn, "col": cell[0], "row": cell[1], "focus": self.focus, "after": list(self.moves_done)}
+                self.chill()
                 try:
                     root.w.mouse_event(self.size, ev, btn, cell[0], cell[1], self.focus)
                 except Exception as e:  # noqa: BLE001
                     self.viol("c2", f"mouse_event-raise:{exc_kind(e)}", o.cellmap[cell], f"mouse_event at {cell} raised {type(e).__name__}: {e}", op)
                     continue
                 ctx.count("c2_mouse_cells")
+                if self.cold:
+                    ctx.count("c2_mouse_cells_before_render")
                 if o.after_history:
                     ctx.count("c2_mouse_cells_after_history")
                 entries = [e for e in self.log if e[0] == "mouse"]
@@ -706,13 +741,15 @@ class Case:
 
     def clause2b(self, o):
         """button-1 press: delivery only, each on a freshly built tree (focus may move afterwards)"""
+        if not self.wants("c2b"):
+            return
         ctx = self.ctx
         cells = sorted(o.cellmap)
         if not cells:
             return
         rng = ctx.subrng("b1", self.key, self.size)
         if getattr(ctx, "shrinking", False):
-            picks = cells[:150]  # while shrinking, do not depend on which cells a smaller tree happens to sample
+            picks = cells[:: max(1, len(cells) // 40)]  # while shrinking, do not depend on which cells a smaller tree happens to sample
         else:
             picks = rng.sample(cells, min(len(cells), ctx.pick(4, 8)))
         for cell in picks:
@@ -723,6 +760,7 @@ class Case:
                 continue
             del self.log[:]
             op = {"op": "mouse", "event": "mouse press", "button": 1, "col": cell[0], "row": cell[1], "fresh": True, "focus": self.focus}
+            self.chill()
             try:
                 root.w.mouse_event(self.size, "mouse press", 1, cell[0], cell[1], self.focus)
             except Exception as e:  # noqa: BLE001
@@ -741,8 +779,10 @@ class Case:
         shows -- rendering goes through the cache, the canvas drawn before the press is still alive; (b) if the press reached a
         selectable leaf that has a cursor, the root must now report exactly that leaf's cursor"""
         ctx = self.ctx
-        self.clause1(of, when="after-press", extra={"after_press": [cell[0], cell[1]]})
         lf = of.cellmap[cell]
+        handled = [e[2] for e in self.log if e[0] == "mouse_ret" and e[1] == lf.sid]
+        pressed_local = (cell[0] - of.rects[lf.sid][0], cell[1] - of.rects[lf.sid][1])
+        self.clause1(of, when="after-press", extra={"after_press": [cell[0], cell[1]]})
         if not (len(entries) == 1 and entries[0][1] == lf.sid):
             return
         if not self.press_moves_cursor_to(lf) or not hasattr(root.w, "get_cursor_coords"):
@@ -761,12 +801,28 @@ class Case:
             return
         left, top = o3.rects[lf.sid][:2]
         want = (left + own[0], top + own[1])
+        self.chill()
         try:
             rep = root.w.get_cursor_coords(self.size)
         except Exception as e:  # noqa: BLE001
             self.viol("c4", f"get_cursor_coords-after-press-raise:{exc_kind(e)}", lf, f"after button-1 press at {cell}: {type(e).__name__}: {e}", op)
             return
         ctx.count("c4_press_cursor_evals")
+        if lf.kind == "Edit" and handled and handled[-1] is True:
+            # a press an Edit reports as handled is a move_cursor_to_coords to that cell: the cursor must be on the pressed row
+            ctx.count("c4_edit_press_row_evals")
+            if own[1] != pressed_local[1]:
+                self.viol(
+                    "c4",
+                    "cursor-not-on-pressed-row",
+                    lf,
+                    f"button-1 press at {cell} (row {pressed_local[1]} of Edit '{lf.glyph}') was handled by the Edit but its cursor is now at {tuple(own)}",
+                    op,
+                )
+                self.collect[-1]["path"] = "Edit[handled-press-cursor-on-other-row]"
+                self.collect[-1]["mode"] = "flow"
+                self.collect[-1]["leaf"] = None
+                return
         if rep is None or tuple(rep) != want:
             self.viol(
                 "c4",
@@ -799,6 +855,8 @@ class Case:
         return all(a.kind in T.CURSOR_MOVERS for a in lf.path_kinds())
 
     def clause3(self, o):
+        if not self.wants("c3"):
+            return
         ctx = self.ctx
         root = self.root
         if root.is_leaf() or not hasattr(root.w, "move_cursor_to_coords"):
@@ -820,12 +878,15 @@ class Case:
             lx, ly = cell[0] - left, cell[1] - top
             op = {"op": "move", "col": cell[0], "row": cell[1], "after": list(history)}
             del self.log[:]
+            self.chill()
             try:
                 ret = root.w.move_cursor_to_coords(self.size, cell[0], cell[1])
             except Exception as e:  # noqa: BLE001
                 self.viol("c3", f"move_cursor-raise:{exc_kind(e)}", lf, f"move_cursor_to_coords{cell} raised {type(e).__name__}: {e}", op)
                 break
             ctx.count("c3_move_evals")
+            if self.cold:
+                ctx.count("c3_move_evals_before_render")
             if o.after_history:
                 ctx.count("c3_move_evals_after_history")
             moves = [e for e in self.log if e[0] == "move"]
@@ -835,7 +896,7 @@ class Case:
             elif mine and (mine[-1][3], mine[-1][4]) == (lx, ly):
                 # an Edit refuses rows that hold only its caption: its own logged answer is the reference
                 expect = bool(mine[-1][5])
-            elif not lf.recipe.get("capsp") and ly in edit_rows_with_position(lf.recipe, lf.w.last_size[0] if lf.w.last_size else 0):
+            elif not lf.recipe.get("capsp") and lf.recipe.get("nl") is None and ly in edit_rows_with_position(lf.recipe, lf.w.last_size[0] if lf.w.last_size else 0):
                 expect = True
             else:
                 ctx.count("c3_edit_answer_unknown_not_judged")
@@ -885,6 +946,7 @@ class Case:
                 if ly not in edit_rows_with_position(lf.recipe, lf.w.last_size[0] if lf.w.last_size else 0):
                     ctx.count("c3_edit_accepted_on_row_without_position")
             if judge_row and not bad:
+                self.chill()
                 try:
                     rep = root.w.get_cursor_coords(self.size)
                 except Exception as e:  # noqa: BLE001
@@ -913,9 +975,15 @@ class Case:
     # ---- keys that move the focus
     KEYS = ("down", "up", "right", "left", "tab", "page down", "home", "end", "shift tab")
 
+    def wants(self, step):
+        want = getattr(self.ctx, "want", None)
+        return want is None or step in want
+
     def key_walk(self, o):
         """a few navigation keys on the same tree; after each one clause 1 is evaluated through the cache (the canvas of the
         last render is alive), then the tree is observed afresh.  What a key does is C08's business; exceptions are not judged."""
+        if not self.wants("keys"):
+            return
         ctx = self.ctx
         root = self.root
         if root.is_leaf() or not root.w.selectable():
@@ -962,6 +1030,8 @@ class Case:
                 ctx.count("skipped_precondition:" + o.reason)
             return None
         ctx.count("cases_judged")
+        if o.rows_disagree:
+            ctx.count("cases_with_rows_method_disagreeing_with_rendered_rows")
         self.subs = [(n.recipe, list(o.sizes[id(n.w)])) for n in root.children if not n.is_leaf() and id(n.w) in o.sizes]
         for k in T.kinds_of(self.recipe):
             ctx.count("judged_with:" + k)
@@ -976,6 +1046,8 @@ class Case:
             self.clause2(o)
             self.clause2b(o)
             return o
+        if self.cold:
+            ctx.count("cold_cases_judged")
         if self.hist is not None:
             ctx.count("hist_cases_judged")
             ctx.count("hist_cases_rerender_variant" if self.hist.get("rerender") else "hist_cases_no_rerender_variant")
@@ -1041,14 +1113,35 @@ def subcases(recipe, size, focus=True):
     return out
 
 
+def steps_for(key, hist):
+    """which steps of Case.run are needed to reproduce a violation of this (clause, kind) while shrinking"""
+    clause, kind = key
+    c3_first = bool(hist and hist.get("c3_first"))
+    if clause == "c1":
+        if kind.endswith(":after-press"):
+            return {"c2b"}
+        if kind.endswith(":after-move"):
+            return {"c3"}
+        if kind.endswith(":after-key"):
+            return {"c3", "keys"}
+        return {"c1", "c3"} if c3_first else {"c1"}
+    if clause == "c2":
+        return {"c2", "c3"} if c3_first else {"c2"}
+    if clause in ("c2b", "c4"):
+        return {"c2b"}
+    return {"c3"}
+
+
 class Quiet:
     """a ctx stand-in for shrinking runs: counts nothing, same rng derivation"""
 
     shrinking = True
 
-    def __init__(self, ctx):
+    def __init__(self, ctx, want=None):
         self._ctx = ctx
         self.tier = ctx.tier
+        self.want = want  # the steps of a case that are needed to reproduce one kind of violation (None = all)
+        self.extra = {}
 
     def count(self, *a, **k):
         pass
@@ -1165,7 +1258,7 @@ def blame(recipe, size, focus, v, hist=None):
         o = observe(root, size, log, focus)
         if not o.ok:
             return None
-        if hist is not None and not apply_history(_NoCount, root, o, size, focus, hist, log):
+        if hist is not None and not hist.get("cold") and not apply_history(_NoCount, root, o, size, focus, hist, log):
             return None
         for c_, r_ in op.get("after", []):
             try:
@@ -1175,7 +1268,7 @@ def blame(recipe, size, focus, v, hist=None):
             o = observe(root, size, log, focus)
             if not o.ok:
                 return None
-            if hist is not None and not apply_history(_NoCount, root, o, size, focus, hist, log):
+            if hist is not None and not hist.get("cold") and not apply_history(_NoCount, root, o, size, focus, hist, log):
                 return None
         leaf = next((n for n in root.leaves() if n.sid == v["leaf"]), None)
         if leaf is None or leaf.sid not in o.rects:
@@ -1221,6 +1314,8 @@ def blame(recipe, size, focus, v, hist=None):
         c, r = op["col"] - ax, op["row"] - ay
         lx, ly = op["col"] - left, op["row"] - top
         del log[:]
+        if hist is not None and hist.get("cold"):
+            urwid.CanvasCache.clear()
         pk = None  # kind of failure shown by this ancestor on its own, in the same vocabulary as Case.viol
         try:
             if op["op"] == "mouse":
@@ -1266,9 +1361,11 @@ def report(ctx, recipe, size, viols, focus=True, hist=None):
     done = set()
     for v in viols:
         key = (v["clause"], v["kind"])
-        if key in done:
+        # with a history / before-render variant, kinds of one family (and c2 vs c2b) end up under one signature anyway
+        dkey = (key[0].rstrip("b"), kind_family(key[1])) if hist is not None else key
+        if dkey in done:
             continue
-        done.add(key)
+        done.add(dkey)
         # shrinking + blame cost up to seconds: once the same (clause, kind, root class, with/without history) has been
         # worked out twice with one and the same signature, later occurrences are filed under it directly
         prekey = (key[0], key[1], recipe["k"], hist is not None)
@@ -1278,10 +1375,14 @@ def report(ctx, recipe, size, viols, focus=True, hist=None):
             ctx.violation(seen_sigs[0], v["msg"] + f"  [root rendered at {tuple(size)}; not shrunk]", {"recipe": strip(recipe), "size": list(size), "focus": focus, "hist": hist, "clause": v["clause"], "kind": v["kind"], "op": v["op"]})
             continue
         r, s, best = recipe, list(size), v
-        q = Quiet(ctx)
+        q = Quiet(ctx, steps_for(key, hist))
+        t_shrink = time.monotonic()
         for _ in range(8):
             moved = False
             for cr, cs in subcases(r, s, focus):
+                if time.monotonic() - t_shrink > 6.0:
+                    ctx.count("shrink_stopped_by_time_limit")
+                    break
                 allgot = run_collect(q, cr, cs, focus, hist)
                 got = [g for g in allgot if (g["clause"], g["kind"]) == key]
                 if not got and hist is not None:
@@ -1300,7 +1401,7 @@ def report(ctx, recipe, size, viols, focus=True, hist=None):
         path, mode = best["path"], best.get("mode") or mode_of(s)
         if hist is not None and not run_same(q, r, s, focus, None, key):
             # the same tree probed right after a fresh render does not show it: the per-size state left by the history is needed
-            stale = "|after-other-size"
+            stale = "|before-render" if hist.get("cold") else "|after-other-size"
         else:
             stale = ""
         culprit = blame(r, s, focus, best, hist if stale else None)
@@ -1324,7 +1425,14 @@ def report(ctx, recipe, size, viols, focus=True, hist=None):
 def do_case(ctx, recipe, size, queue=None, focus=True, hist=None):
     got = []
     c = Case(ctx, recipe, size, got, focus, hist)
+    t0 = time.monotonic()
     o = c.run()
+    dt = time.monotonic() - t0
+    if dt > 3.0:
+        ctx.count("slow_cases_over_3s")
+        if dt > ctx.extra.get("slowest_case_s", 0):
+            ctx.extra["slowest_case_s"] = round(dt, 1)
+            ctx.extra["slowest_case"] = {"recipe": strip(recipe), "size": list(size), "focus": focus, "hist": hist}
     ok = o is not None
     ctx.case((json.dumps(strip(recipe), sort_keys=True), list(size), bool(focus), hist), nontrivial=ok and bool(o.cellmap))
     if got:
@@ -1380,6 +1488,7 @@ def run(ctx):
                 if size:
                     for h in SEED_HISTORIES:
                         do_case(ctx, recipe, size, None, True, h)
+                do_case(ctx, recipe, size, None, True, {"cold": True})
         while ctx.more(1.0) and ncases < maxcases:
             ncases += 1
             mode = rng.choice(["box", "box", "box", "flow", "flow", "fixed"])
@@ -1391,7 +1500,8 @@ def run(ctx):
             ctx.count("trees_generated")
             queue = []
             rfocus = rng.random() < 0.8
-            hist = gen_history(rng) if (mode != "fixed" and rng.random() < 0.45) else None
+            x = rng.random()
+            hist = gen_history(rng) if (mode != "fixed" and x < 0.4) else ({"cold": True} if x > 0.72 else None)
             for attempt in range(3):
                 size = T.root_size(rng, recipe, mode)
                 if do_case(ctx, recipe, size, queue, rfocus, hist):
@@ -1406,7 +1516,8 @@ def run(ctx):
                 k += 1
                 r, s = queue.pop(0)
                 ctx.count("rerooted_subtrees")
-                do_case(ctx, r, s, queue, True, gen_history(rng) if (s and rng.random() < 0.45) else None)
+                x = rng.random()
+                do_case(ctx, r, s, queue, True, gen_history(rng) if (s and x < 0.4) else ({"cold": True} if x > 0.72 else None))
         if ctx.shard == 0:
             ctx.extra["outside_domain_observations"] = outside_domain_probe()
     finally:
@@ -1475,6 +1586,31 @@ SEEDS = [
     ({"k": "Pile", "items": [[["pack"], _spy(rows=1)], [["pack"], {"k": "Edit", "cap": 9, "capsp": True, "len": 3, "pos": 0, "wrap": "space"}]]}, [10]),
     ({"k": "Filler", "c": {"k": "Edit", "cap": 7, "len": 4, "pos": 1, "wrap": "any"}, "valign": "top", "height": "pack"}, [3, 6]),
     ({"k": "Padding", "c": {"k": "Edit", "cap": 8, "capsp": True, "len": 2, "pos": 0, "wrap": "space"}, "align": "left", "width": 8, "left": 1}, [12]),
+    (
+        {
+            "k": "Pile",
+            "items": [
+                [["pack"], {"k": "Pile", "items": [[["weight", 0], _spy(rows=2, sel=False)], [["pack"], _spy(rows=1, sel=False)]]}],
+                [["pack"], {"k": "Edit", "cap": 0, "len": 5, "pos": 3, "wrap": "any"}],
+                [["pack"], _spy(rows=2, cur=[1, 1])],
+            ],
+            "focus": 1,
+        },
+        [9],
+    ),
+    ({"k": "Filler", "c": {"k": "Pile", "items": [[["weight", 0], _spy(rows=2)], [["weight", 2], _spy(rows=1)], [["pack"], _spy(rows=2)]], "focus": 2}, "valign": "middle", "height": "pack"}, [6, 9]),
+    (
+        {
+            "k": "Pile",
+            "items": [
+                [["pack"], _spy(rows=1)],
+                [["pack"], {"k": "Padding", "c": {"k": "Edit", "cap": 0, "len": 12, "pos": 0, "wrap": "any", "mask": True, "txt": "comb"}, "align": "left", "width": ["relative", 100], "left": 1, "right": 1}],
+            ],
+        },
+        [6],
+    ),
+    ({"k": "Filler", "c": {"k": "Edit", "cap": 2, "len": 9, "pos": 9, "wrap": "any", "mask": True, "txt": "mixed"}, "valign": "top", "height": "pack"}, [4, 6]),
+    ({"k": "AttrMap", "c": {"k": "Edit", "cap": 0, "len": 6, "pos": 0, "wrap": "space", "nl": 3}}, [5]),
     ({"k": "BoxAdapter", "c": _spy("box"), "h": 3}, [5]),
     ({"k": "LineBox", "c": _spy()}, [6]),
     ({"k": "GridFlow", "cells": [_spy(), _spy(), _spy()], "cw": 3, "hs": 1, "vs": 1, "align": "center"}, [8]),
